@@ -17,3 +17,8 @@ Definition gen_struct_equiv := GenCStruct_equiv.gen_struct_equiv.
 Definition gen_struct_none := GenCStruct_equiv.gen_struct_none.
 Definition gen_function_equiv := GenCStruct_fun.gen_function_equiv.
 Definition gen_module_equiv := GenCStruct_fun.gen_module_equiv.
+From TV Require proofs.GenCStruct_sem.
+Definition sem_block_comment := GenCStruct_sem.sem_block_comment.
+Definition sem_block_singleton := GenCStruct_sem.sem_block_singleton.
+Definition sem_block_splice := GenCStruct_sem.sem_block_splice.
+Definition sem_else_block := GenCStruct_sem.sem_else_block.
